@@ -237,6 +237,12 @@ def cmds(job, rng, home):
             head = rng.choice(unfinished) if unfinished else None
             cl.append((max(1, n_iters - rng.randint(0, 3)), "force_trigger_tasks",
                        {"tasks": family_ids(head, 1.0), "flow": []}))
+        elif k == "remove_reload":
+            # a pooled task is removed (its satisfied prerequisites forgotten), respawned by another parent, then
+            # the workflow is reloaded: prerequisites whose upstream output is on record must stay as they are
+            i1 = rng.randint(1, max(1, n_iters))
+            cl.append((i1, "remove_tasks", {"tasks": some_ids(rng.randint(1, 2)), "flow": []}))
+            cl.append((i1 + rng.randint(1, 6), "reload_workflow", {}))
         elif k == "retrig_remove":
             # run a finished instance again in a new flow, then remove it (from all flows, or one of them)
             i1 = rng.randint(max(1, n_iters // 2), n_iters + 2)
